@@ -14,7 +14,7 @@ var verifPanicObservers sync.Map // *WorkerLoop -> func(interface{})
 // VerifObserveRecoveredPanics registers an observer for panics that handleRawMessage recovers from.
 func (lh *WorkerLoop) VerifObserveRecoveredPanics(f func(r interface{})) {
 	verifPanicObservers.Store(lh, f)
-	lh.filter.VerifObserveRecoveredPanics(f)
+	lh.filter.VerifObserveRecoveredPanics(func(r interface{}, message interfaces.ConsensusMessage) { f(verifFilterPanic{r, message}) })
 }
 
 func verifRecovered(lh *WorkerLoop, r interface{}) {
@@ -52,4 +52,17 @@ func (lh *WorkerLoop) VerifElection(trigger *interfaces.ElectionTrigger) {
 // VerifDispose runs what Run does on shutdown.
 func (lh *WorkerLoop) VerifDispose() {
 	lh.cleanupCurrentTerm()
+}
+
+// verifFilterPanic is what the observer receives for a panic recovered by the height filter: the panic
+// value and the message that was being processed (possibly a cached one).
+type verifFilterPanic struct {
+	R       interface{}
+	Message interfaces.ConsensusMessage
+}
+
+// VerifFilterPanicOf unpacks an observer argument that came from the height filter.
+func VerifFilterPanicOf(x interface{}) (r interface{}, message interfaces.ConsensusMessage, ok bool) {
+	p, ok := x.(verifFilterPanic)
+	return p.R, p.Message, ok
 }
